@@ -18,3 +18,26 @@ func VerifRangeForViolation(row, col int, end *[2]int, text *string) [4]uint {
 	r := getRangeForViolation(v)
 	return [4]uint{r.Start.Line, r.Start.Character, r.End.Line, r.End.Character}
 }
+
+// VerifCacheOrphans: URIs for which the cache holds a module or aggregate data although the file's contents are not
+// cached (the invariant `Clean` of the LspCache model)
+func (l *LanguageServer) VerifCacheOrphans() (modules []string, aggregates []string) {
+	files := l.cache.GetAllFiles()
+	modules, aggregates = []string{}, []string{}
+	for k := range l.cache.GetAllModules() {
+		if _, ok := files[k]; !ok {
+			modules = append(modules, k)
+		}
+	}
+	seen := map[string]bool{}
+	for _, as := range l.cache.GetFileAggregates() {
+		for _, a := range as {
+			f := a.SourceFile()
+			if _, ok := files[f]; !ok && !seen[f] {
+				seen[f] = true
+				aggregates = append(aggregates, f)
+			}
+		}
+	}
+	return modules, aggregates
+}
